@@ -253,4 +253,18 @@ var checks = map[string]*check{
 			{Name: "race-pass", Kind: "enum", Bin: "e3.test", Test: "TestRacePass"},
 		},
 	},
+	"C12": {
+		Title: "With AutoMTLS every plugin connection is mutually authenticated",
+		Level: "fault_enumeration",
+		Rule: "plugin side (real processes): a real AutoMTLS pair (real plugin.Serve child, real Client) x {net/rpc, gRPC, gRPC+mux} with brokered listeners open in both directions; an intruder in the host process attacks the main address and every other socket of the pair with each credential class {plaintext, TLS without client certificate, TLS with a fresh self-signed certificate, TLS with a certificate of the same subject/SAN as go-plugin's but another key}, speaking both gRPC (health check) and yamux+net/rpc (Control.Ping); control cells without AutoMTLS show that the intruder is answered when nothing protects the socket; " +
+			"host side (explorer): an impostor plugin that announces certificate A and serves with certificate B, or announces A and serves plaintext, against the real AutoMTLS Client under schedules with <= 1 deviation; non-trivial = every intrusion / impostor case",
+		Assumptions: []string{
+			"'replaying the legitimate certificate without its key' cannot complete a TLS handshake and is not attempted",
+			"the intruder runs inside the host process (it sees the socket directories a local attacker would)",
+		},
+		Parts: []part{
+			{Name: "intruders", Kind: "enum", Bin: "e3.test", Test: "TestC12"},
+			{Name: "impostor", Kind: "explore", Scen: "impostor", Depths: depths([]int{1}, []int{1, 2}), Budget: budget(3*time.Minute, 15*time.Minute)},
+		},
+	},
 }
